@@ -106,7 +106,7 @@ def multiplicity(pieces_by_label):
     xs = _indicator_breaks(*merged.values())
     out = []
     for x0, x1 in zip(xs[:-1], xs[1:]):
-        if x1 - x0 <= EPS:
+        if not x1 > x0:
             continue
         mid = (x0 + x1) / 2
         labs = tuple(sorted(lab for lab, ps in merged.items() if _covers(ps, mid)))
